@@ -24,19 +24,30 @@ def run_view(prog, rep):
         if not hasoff:
             probs.append('path does not distinguish an empty from a given offset')
             continue
+        def exceeds(req, lim):
+            """truth of 'some component of req exceeds lim' on this path, from the component-wise NDSize comparisons:
+            req > lim  ==  !(req nd<= lim);  !(lim >= req) == lim nd< req is the stronger 'all components' form and is NOT accepted"""
+            v = assign.get(('cmp', 'nd<=', req, lim))
+            return None if v is None else (not v)
         if hasoff[0]:
-            over = assign.get(('cmp', '<', ('W_count',), ('bin', '+', ('cnt',), ('off',))))
-            over2 = assign.get(('cmp', '<', ('W_count',), ('bin', '+', ('off',), ('cnt',))))
-            over = over if over is not None else over2
+            over = exceeds(('bin', '+', ('cnt',), ('off',)), ('W_count',))
+            if over is None:
+                over = exceeds(('bin', '+', ('off',), ('cnt',)), ('W_count',))
             want = ('bin', '+', ('W_offset',), ('off',))
             want2 = ('bin', '+', ('off',), ('W_offset',))
+            if over is None and any(k[:2] == ('cmp', 'nd<') and k[2] == ('W_count',) for k in assign):
+                probs.append('the request is tested with count < cnt + off, which for NDSize holds only if EVERY component is exceeded: a request that leaves the window in one dimension only is accepted')
+                continue
         else:
-            over = assign.get(('cmp', '<', ('W_count',), ('cnt',)))
+            over = exceeds(('cnt',), ('W_count',))
             want = want2 = ('W_offset',)
+            if over is None and any(k[:2] == ('cmp', 'nd<') and k[2] == ('W_count',) for k in assign):
+                probs.append('the request is tested with count < cnt, which for NDSize holds only if EVERY component is exceeded')
+                continue
         if over is None and hasoff[0]:
             # accepted equivalent idiom on unsigned extents: off > count || cnt > count - off
-            guard = assign.get(('cmp', '<', ('W_count',), ('off',)))
-            room = assign.get(('cmp', '<', ('bin', '-', ('W_count',), ('off',)), ('cnt',)))
+            guard = exceeds(('off',), ('W_count',))
+            room = exceeds(('cnt',), ('bin', '-', ('W_count',), ('off',)))
             if guard is True:
                 over = True
             elif guard is False and room is not None:
@@ -108,9 +119,14 @@ def run_view(prog, rep):
             probs.append('view created without rank(offset) == rank(data)')
         if not r_cnt or r_cnt[0] is not True:
             probs.append('view created without rank(count) == rank(data)')
-        over = [v for k, v in assign.items() if k[0] == 'cmp' and k[1] == '<' and 'dataExtent' in repr(k[2]) and k[3][:2] == ('bin', '+') and contains(k[3], ('offset',)) and contains(k[3], ('count',))]
-        if not over or over[0] is not False:
-            probs.append('view created without establishing !(offset + count > data extent)')
+        # offset + count > extent  ==  !(offset + count nd<= extent): a returning path must have decided 'all components within'
+        within = [v for k, v in assign.items() if k[0] == 'cmp' and k[1] == 'nd<=' and 'dataExtent' in repr(k[3]) and isinstance(k[2], tuple) and k[2][:2] == ('bin', '+') and contains(k[2], ('offset',)) and contains(k[2], ('count',))]
+        weak = [k for k in assign if k[0] == 'cmp' and k[1] == 'nd<' and 'dataExtent' in repr(k[2])]
+        if not within or within[0] is not True:
+            if weak:
+                probs.append('the view is refused only if extent < offset + count, which for NDSize means EVERY component is exceeded: a window that leaves the data in one dimension only is created')
+            else:
+                probs.append('view created without establishing !(offset + count > data extent)')
     rule.check(not probs and nok >= 1, DV + '::DataView|guards', rep.where(ctor), ctor.q, 'normal completion implies rank checks and offset+count within the data (%d paths)' % len(res), '; '.join(sorted(set(probs))))
     rule.check(term_is_field(prog.fn(DV + '::dataExtent', '()'), 'count'), DV + '::dataExtent|window', rep.where(ctor), DV + '::dataExtent', 'the extent of a view is its window size')
     return rule
